@@ -42,19 +42,22 @@ type Noise struct {
 
 // Case is one completion plus one way of putting it on the wire.
 type Case struct {
-	Segs        []Seg   `json:"segs"`
-	Finish      string  `json:"finish"` // stop | length | tool_calls | null (finish chunk with finish_reason:null) | omit (no finish chunk) | anything else verbatim
-	Usage       string  `json:"usage"`  // absent | finish | trailing
-	Prompt      int     `json:"prompt,omitempty"`
-	Completion  int     `json:"completion,omitempty"`
-	CRLF        bool    `json:"crlf,omitempty"`
-	EscapeASCII bool    `json:"escape_ascii,omitempty"` // non-ASCII as \uXXXX (Python json.dumps default)
-	NullContent bool    `json:"null_content,omitempty"` // tool deltas carry "content":null
-	RoleContent string  `json:"role_content,omitempty"` // "" => "content":"" ; "absent" ; "null"
-	OmitDone    bool    `json:"omit_done,omitempty"`
-	Reader      []int   `json:"reader,omitempty"` // sizes of the pieces the upstream reader returns, cycled; empty = whole stream
-	EOFWithData bool    `json:"eof_with_data,omitempty"`
-	Noise       []Noise `json:"noise,omitempty"`
+	Segs   []Seg  `json:"segs"`
+	Finish string `json:"finish"` // stop | length | tool_calls | null (finish chunk with finish_reason:null) | omit (no finish chunk) | anything else verbatim
+	Usage  string `json:"usage"`  // absent | finish | trailing
+	// FinishInline: finish_reason (and "finish" usage) ride on the chunk that carries the last
+	// content / tool-call delta instead of a separate empty-delta chunk (llama.cpp, Ollama, gateways)
+	FinishInline bool    `json:"finish_inline,omitempty"`
+	Prompt       int     `json:"prompt,omitempty"`
+	Completion   int     `json:"completion,omitempty"`
+	CRLF         bool    `json:"crlf,omitempty"`
+	EscapeASCII  bool    `json:"escape_ascii,omitempty"` // non-ASCII as \uXXXX (Python json.dumps default)
+	NullContent  bool    `json:"null_content,omitempty"` // tool deltas carry "content":null
+	RoleContent  string  `json:"role_content,omitempty"` // "" => "content":"" ; "absent" ; "null"
+	OmitDone     bool    `json:"omit_done,omitempty"`
+	Reader       []int   `json:"reader,omitempty"` // sizes of the pieces the upstream reader returns, cycled; empty = whole stream
+	EOFWithData  bool    `json:"eof_with_data,omitempty"`
+	Noise        []Noise `json:"noise,omitempty"`
 }
 
 // ---------------------------------------------------------------------------
@@ -272,16 +275,19 @@ func (c Case) renderEvents() (events []string, argFrags []int) {
 	}
 	events = append(events, c.chunk(role, "null", ""))
 	toolIdx := 0
+	lastDelta := ""
 	for _, s := range c.Segs {
 		switch s.Kind {
 		case "text":
 			if s.Text == "" {
 				// an empty text segment: one delta with empty content
-				events = append(events, c.chunk(`{"content":""}`, "null", ""))
+				lastDelta = `{"content":""}`
+				events = append(events, c.chunk(lastDelta, "null", ""))
 				continue
 			}
 			for _, f := range fragment(s.Text, s.Frag) {
-				events = append(events, c.chunk(`{"content":`+jstr(f, c.EscapeASCII)+`}`, "null", ""))
+				lastDelta = `{"content":` + jstr(f, c.EscapeASCII) + `}`
+				events = append(events, c.chunk(lastDelta, "null", ""))
 			}
 		case "tool":
 			args := effectiveArgs(s)
@@ -297,9 +303,11 @@ func (c Case) renderEvents() (events []string, argFrags []int) {
 			}
 			head := pre + `"tool_calls":[{"index":` + strconv.Itoa(toolIdx) + `,"id":` + jstr(s.ID, c.EscapeASCII) +
 				`,"type":"function","function":{"name":` + jstr(s.Name, c.EscapeASCII) + `,"arguments":` + jstr(first, c.EscapeASCII) + `}}]}`
+			lastDelta = head
 			events = append(events, c.chunk(head, "null", ""))
 			for _, f := range rest {
 				d := pre + `"tool_calls":[{"index":` + strconv.Itoa(toolIdx) + `,"function":{"arguments":` + jstr(f, c.EscapeASCII) + `}}]}`
+				lastDelta = d
 				events = append(events, c.chunk(d, "null", ""))
 			}
 			n := len(rest)
@@ -319,7 +327,11 @@ func (c Case) renderEvents() (events []string, argFrags []int) {
 		if c.Usage == "finish" {
 			u = c.usageJSON()
 		}
-		events = append(events, c.chunk(`{}`, fr, u))
+		if c.FinishInline && lastDelta != "" {
+			events[len(events)-1] = c.chunk(lastDelta, fr, u)
+		} else {
+			events = append(events, c.chunk(`{}`, fr, u))
+		}
 	}
 	if c.Usage == "trailing" {
 		events = append(events, `{"id":"`+wireID+`","object":"chat.completion.chunk","created":1700000000,"model":"`+wireModel+
